@@ -70,14 +70,18 @@ func (c *DNSCache) lookup(ctx context.Context, name string) (*dnsCacheEntry, boo
 
 	// If we've hit, or exceed somehow, the maximum size of the cache
 	// then we will need to evict the oldest entries to make room.
-	for len(c.entries) >= c.size {
-		name, ts := "", time.Now().Add(c.duration)
+	// Always evict the entry that expires first: looking only for entries
+	// that expire before now+duration finds nothing when an entry was stored
+	// within the same clock tick (or when size is zero) and would spin here
+	// forever with the mutex held.
+	for len(c.entries) > 0 && len(c.entries) >= c.size {
+		oldest, ts, found := "", time.Time{}, false
 		for n, e := range c.entries {
-			if e.expires.Before(ts) {
-				ts, name = e.expires, n
+			if !found || e.expires.Before(ts) {
+				ts, oldest, found = e.expires, n, true
 			}
 		}
-		delete(c.entries, name)
+		delete(c.entries, oldest)
 	}
 
 	// Create a new entry, give it the validity specified when the
